@@ -93,7 +93,7 @@ func (c *Ctx) sparseLen(maxShares int) int {
 	case 1:
 		return base + c.rng.Range(-2, 2)
 	case 2:
-		return base - 20 + c.rng.Range(-2, 2) // version 1 boundary
+		return base - c.rng.Range(-1, 21) // the whole 20-byte window in which a signer adds a share
 	case 3:
 		return c.rng.Range(1, 478)
 	default:
